@@ -38,6 +38,8 @@ THEOREMS = [
     "OllamaVerif.C17.openai_cmpl_stream_equiv",
     "OllamaVerif.C17.openai_stream_one_done",
     "OllamaVerif.C17.openai_stream_failure_swallowed",
+    "OllamaVerif.C17.openai_stream_failure_reported_fixed",
+    "OllamaVerif.C17.tools_equiv_fixed",
     "OllamaVerif.C17.F17a_split_loses_call",
     "OllamaVerif.C17.F17b_index_mismatch",
     "OllamaVerif.C17.F17c_openai_stream_error_swallowed",
@@ -52,7 +54,7 @@ OVERLAY = {"server/zz_verif_c17_test.go": "server/zz_verif_c17_test.go"}
 def run(ctx):
     ctx.lean_check(MODULES, THEOREMS)
     import os
-    env = {"VERIF_C17_VARIANT": os.environ.get("VERIF_C17_VARIANT", VARIANT), "VERIF_N": ctx.scale(6, 9), "VERIF_TEXTS": ctx.scale(12, 60), "VERIF_SAMPLES": ctx.scale(12, 64)}
+    env = {"VERIF_C17_VARIANT": os.environ.get("VERIF_C17_VARIANT", VARIANT), "VERIF_N": ctx.scale(7, 9), "VERIF_TEXTS": ctx.scale(16, 60), "VERIF_SAMPLES": ctx.scale(12, 64)}
     if ctx.replay:
         env["VERIF_REPLAY"] = ctx.replay_line_file()
     rc, out, outdir = ctx.go_test("./server/", OVERLAY, "^TestVerifC17$", env=env, timeout=1500)
